@@ -101,6 +101,18 @@ func (l L) Less(i, j int) bool { return l[i] < l[j] }
 
 func useAll() { Sorts(nil, nil); _ = Errs; _ = Conv; _ = Sprints; _ = Writes }
 `)
+	// ordinary (non-main) packages in directories named like test binaries: without tests, with only an external
+	// test package, with in-package tests (a main package in such a directory is the recorded pkgload finding and
+	// is not part of this workspace)
+	tbody := func(pkg, fn string) string {
+		return "package " + pkg + "\n\nfunc " + fn + "(IN int, xs []int) int {\n\tif len(xs) >= 0 {\n\t\tIN = IN + 1\n\t}\n\treturn IN\n}\n"
+	}
+	w("smoke.test/s.go", tbody("smoke", "S"))
+	w("ext.test/e.go", tbody("ext", "E"))
+	w("ext.test/e_x_test.go", "package ext_test\n\nimport \"ws/ext.test\"\n\nfunc UseE(IN int) int { return ext.E(IN, nil) }\n")
+	w("inpkg.test/i.go", tbody("inpkg", "I"))
+	w("inpkg.test/i_test.go", tbody("inpkg", "ITest"))
+	w("deep/nested.test/sub/n.go", tbody("sub", "N"))
 	// a type whose size is above hugeParam's and rangeValCopy's default thresholds on 64-bit targets only
 	w("g/arch.go", "package g\n\ntype mid struct{ a [12]int }\n\ntype ptrs struct{ p [14]*int }\n\nfunc M(m mid, p ptrs, ms []mid) int {\n\tn := 0\n\tfor _, x := range ms {\n\t\tn += x.a[0]\n\t}\n\treturn n + m.a[0] + len(p.p)\n}\n")
 }
